@@ -83,6 +83,7 @@ def run(repo, chk):
     chk.rule("R01.5", "scope hygiene: nested scopes are returned unvisited, or every identifier the rewriter can emit inside them is immune to that scope's rules (class-private name mangling)", 6)
     chk.rule("R01.6", "declaration order: a synthesised prologue statement may mention a user name only if no global/nonlocal statement of the body can declare it", 2)
     chk.rule("R01.7", "target-shape totality: every grammar-legal target kind of every binding context ends in a template, not in NotImplementedError or in a node shape compile() rejects", 4)
+    chk.rule("R01.9", "no local is mistaken for an external: every construct that binds a name in the function scope is known to the collector (recorded as assigned, or as the name of a nested definition), otherwise reading the name makes the prologue fetch it from the globals at entry and the call fails", 15)
     chk.rule("R01.8", "closure cells are shared, not copied: the function handed back is built over fn.__closure__, never over cell_contents", 1)
 
     cls, H, stats = Q.templates(repo, chk.tier)
@@ -355,6 +356,22 @@ def run(repo, chk):
     # the globals snapshot read at entry is faithful (documented exception: rebinding during the call)
     from .shared import dictpile_obligations
     dictpile_obligations(repo, chk, "R01.3")
+
+    # ------------------------------------------------------------------ R01.9
+    from .. import pybinding
+    from ..evc import Collector
+    pybinding.validate()
+    col = Collector(repo)
+    for row in pybinding.ROWS:
+        rid = row[0]
+        if not pybinding.ORACLE[rid] or rid in ("delete", "param"):
+            continue
+        v = col.verdict(row)
+        ok = v["recorded"] or v["funcname"]
+        chk.ob("R01.9", f"{rid}:not-mistaken-for-an-external", ok, f"ptera/transform.py ({col.cls.name})",
+               f"{rid}: the bound name is known to the collector ({'assigned' if v['recorded'] else 'nested definition name'})" if ok else
+               f"{rid}: the collector does not know this binding ({v['blocked_by'] or 'no handler for ' + v['class']}); a function that reads the name classifies it as external, "
+               "fetches it from the globals at entry and fails with PteraNameError before running")
 
     # ------------------------------------------------------------------ R01.8
     tr = repo.func("transform.transform")
